@@ -290,6 +290,11 @@ def all_jobs():
                   cut=['_ZN4bloc5Value4swapEOS0_', V_CLONE, V_CLEAR, RTE_CTOR, RTE_CTOR_S, '_ZNK4bloc5Value8typeNameB5cxx11Ev'], defines=['ENFORCING_VALUE_CLONE'],
                   props=['C01', 'C05', 'C08'], pretty='bloc::Context::storeVariable', canaries=['normal', 'exceptional'],
                   structs=DEFAULT_STRUCTS + [STD_STRING, 'bloc::Context', 'bloc::Symbol', 'bloc::Context::MemorySlot', 'bloc::Collection', 'bloc::Tuple']))
+    mg = '_ZNK4bloc17FunctorExpression5valueERNS_7ContextE'
+    CREATEENV = '_ZN4bloc14FunctorManager9createEnvERNS_7ContextEjRKSt6vectorIPNS_10ExpressionESaIS5_EE'
+    J.append(dict(id='fn_call', src='blocc/expression_functor.cpp', contract='fn_call.c', enforce=mg, roots=[mg], replace=[CTX_ALLOCATE, V_CLEAR], cut=[CREATEENV, CTX_ALLOCATE, V_CLEAR],
+                  props=['C01', 'C05', 'C07', 'C08', 'C17'], pretty='bloc::FunctorExpression::value', canaries=['normal', 'exceptional'],
+                  structs=DEFAULT_STRUCTS + ['bloc::Context', 'bloc::FunctorExpression', 'bloc::FunctorManager', 'bloc::FunctorManager::Entry', 'bloc::FunctorManager::Env', 'bloc::Functor', 'bloc::Statement']))
     # ---- generic builtin contracts (C01, C05): one job per builtin listed here ----
     for ent in BUILTINS_GENERIC:
         name, cls, nargs = ent[0], ent[1], ent[2]
